@@ -71,3 +71,51 @@ pub fn mk_error(msgs: &[String]) -> TracedValue {
     }
     serde_json::from_value(serde_json::json!({ "error": go(msgs) })).expect("error value")
 }
+
+// ---- call sites and events ------------------------------------------------------------------
+use tracing_tunnel::{CallSiteData, CallSiteKind, TracingEvent, TracingLevel};
+
+pub fn clevel(l: TracingLevel) -> &'static str {
+    match l {
+        TracingLevel::Error => "LError",
+        TracingLevel::Warn => "LWarn",
+        TracingLevel::Info => "LInfo",
+        TracingLevel::Debug => "LDebug",
+        TracingLevel::Trace => "LTrace",
+    }
+}
+pub fn ccs(d: &CallSiteData) -> String {
+    format!(
+        "(mk_cs {} {} {} {} {} {} {} {})",
+        match d.kind { CallSiteKind::Span => "KSpan", CallSiteKind::Event => "KEvent" },
+        cstr(&d.name),
+        cstr(&d.target),
+        clevel(d.level),
+        copt(d.module_path.as_deref(), cstr),
+        copt(d.file.as_deref(), cstr),
+        copt(d.line, cn),
+        clist(d.fields.iter(), |f| cstr(f))
+    )
+}
+pub fn cevent(e: &TracingEvent) -> String {
+    match e {
+        TracingEvent::NewCallSite { id, data } => format!("(ENewCallSite {id} {})", ccs(data)),
+        TracingEvent::NewSpan { id, parent_id, metadata_id, values } => format!(
+            "(ENewSpan {id} {} {metadata_id} {})",
+            copt(*parent_id, cn),
+            ctvs(values)
+        ),
+        TracingEvent::FollowsFrom { id, follows_from } => format!("(EFollowsFrom {id} {follows_from})"),
+        TracingEvent::SpanEntered { id } => format!("(ESpanEntered {id})"),
+        TracingEvent::SpanExited { id } => format!("(ESpanExited {id})"),
+        TracingEvent::SpanCloned { id } => format!("(ESpanCloned {id})"),
+        TracingEvent::SpanDropped { id } => format!("(ESpanDropped {id})"),
+        TracingEvent::ValuesRecorded { id, values } => format!("(EValuesRecorded {id} {})", ctvs(values)),
+        TracingEvent::NewEvent { metadata_id, parent, values } => format!(
+            "(ENewEvent {metadata_id} {} {})",
+            copt(*parent, cn),
+            ctvs(values)
+        ),
+        _ => "(ESpanEntered 0)".into(),
+    }
+}
